@@ -16,8 +16,8 @@ Rule → theorem
   repeated or late metadata                          repeated_metadata, late_metadata
   interleaved or clashing families                   interleaved_families, clashing_families
   unit not suffixing the name / on info, stateset    unit_not_suffix, unit_on_info_or_stateset
-  histogram groups: no +Inf, bounds not increasing,  hist_no_inf_partial, hist_bounds_not_increasing_partial,
-    counts not cumulative, _count ≠ +Inf bucket        hist_counts_not_cumulative_partial, hist_count_ne_inf_partial
+  histogram groups: bounds not increasing,           hist_bounds_not_increasing, hist_counts_not_cumulative (document level),
+    counts not cumulative, no +Inf, _count ≠ +Inf      hist_no_inf_partial, hist_count_ne_inf_partial (sample-list level)
     counts not integral                                count_not_integral
     bound NaN in any spelling / missing / not a number bucket_bound_nan
   NaN or negative counter-like samples               counter_like_nan, counter_like_negative
@@ -29,10 +29,14 @@ Rule → theorem
   exemplars on ineligible samples / over 128 chars   exemplar_ineligible, exemplar_too_long  (the latter on remFinish)
 
 Not proved / partial, and why
-* hist_*_partial: the rule is proved on the sample list `_check_histogram` receives (any position, any other groups);
-  missing: the composition with the line fold (which lines reach the list — every one except repeats of a series at
-  an unchanged timestamp, `groupStep_ok`), so no `HistX (lines) → (assemble lines).isError` statement.  The two
-  `do_checks` rules additionally assume `t == t` for the timestamps in the list (floats: never NaN).
+* histogram rules: `hist_bounds_not_increasing` and `hist_counts_not_cumulative` are document-level (the pair of bucket
+  lines at any position of the family block; the two lines must be new series, because a line repeating a series at an
+  unchanged timestamp is dropped before the histogram check — the exemption recorded in the evidence).
+  `hist_no_inf_partial` and `hist_count_ne_inf_partial` (the two `do_checks` rules) stay on the sample list
+  `_check_histogram` receives: missing is the same composition with the line fold (which lines reach the list) for a
+  whole group up to its end, where the failure is not prefix-stable (a later `+Inf` / `_count` line of the same group can
+  still repair it); they also assume `t == t` for the timestamps in the list (floats: never NaN).
+  The `*_partial` list-level versions of the first two are kept (no side condition on repeats).
 * timestamp_backwards: consecutive samples only (the parser compares each sample with its predecessor; a statement
   about non-adjacent samples of a group needs transitivity of the float order, a fact about IEEE not about the code).
 * families without a `# TYPE` line (typ `unknown` opened by a sample or by HELP/UNIT only) are outside `InBlock`;
@@ -47,6 +51,7 @@ import PromVerif.Lemmas.OMDoom
 import PromVerif.Lemmas.OMGroup
 import PromVerif.Lemmas.OMLabels
 import PromVerif.Lemmas.OMHist
+import PromVerif.Lemmas.OMHistDoc
 import PromVerif.Lemmas.OMToy
 
 namespace PromVerif.Props.C15
@@ -926,6 +931,36 @@ theorem hist_count_ne_inf_partial (P : Params) (n : Str) (samples : List OSample
 example : isError (parseDoc "# TYPE a histogram\na_bucket{le=\"+Inf\"} 2\na_count 2\na_sum 1\n# EOF\n") = false := by decide
 example : errOf (parseDoc "# TYPE a histogram\na_bucket{le=\"+Inf\"} 2\na_count 3\na_sum 1\n# EOF\n") = some .valueError := by decide
 example : errOf (parseDoc "# TYPE a gaugehistogram\na_bucket{le=\"+Inf\"} 2\na_gcount 0\na_gsum 1\n# EOF\n") = some .valueError := by decide
+
+/-! ### the two loop-detected rules on the document's lines -/
+
+theorem hist_pair_rule (P : Params) (ls : List Line) (bad : Str → OSample → OSample → Prop)
+    (hbad : ∀ n s1 s2, bad n s1 s2 → ∀ h0, isError (histLoop P n h0 [s1, s2]) = true)
+    (h : HistPairDoc ls bad) : isError (assemble P ls) = true := by
+  obtain ⟨pre, n, t, mid, s1, s2, post, rfl, ht, hmid, hm1, hm2, hne, hfresh, hb⟩ := h
+  apply isError_of_suffix_kept
+  intro st hk
+  rw [← kwType_eq]
+  have := hist_pair_doc P n t ht mid post s1 s2 st hk (fun l hl => inFam_bridge n t l (hmid l hl)) hm1 hm2 hne hfresh
+    (hbad n s1 s2 hb)
+  simpa [List.append_assoc] using this
+
+/-- bounds not strictly increasing between two consecutive bucket lines of one group: the DOCUMENT is rejected —
+any family name, any position of the pair in the family block, anything before the block and after the pair; the two
+lines must be new series (a repeated series at an unchanged timestamp is dropped before the histogram check) -/
+theorem hist_bounds_not_increasing (P : Params) (ls : List Line) (h : HistBoundsNotIncreasingDoc P ls) :
+    isError (assemble P ls) = true :=
+  hist_pair_rule P ls _ (fun n s1 s2 ⟨b1, b2, g1, g2, hb1, hb2, hs, hle⟩ => bounds_pair_loop P n s1 s2 b1 b2 g1 g2 hb1 hb2 hs hle) h
+
+/-- counts not cumulative between two consecutive bucket lines of one group: the DOCUMENT is rejected -/
+theorem hist_counts_not_cumulative (P : Params) (ls : List Line) (h : HistCountsNotCumulativeDoc P ls) :
+    isError (assemble P ls) = true :=
+  hist_pair_rule P ls _ (fun n s1 s2 ⟨b1, b2, g1, g2, v1, v2, hb1, hb2, hs, hv1, hv2, hlt⟩ =>
+    counts_pair_loop P n s1 s2 b1 b2 g1 g2 v1 v2 hb1 hb2 hs hv1 hv2 hlt) h
+
+set_option maxRecDepth 8000 in
+example : errOf (parseDoc "# TYPE a histogram\na_bucket{le=\"1\"} 1\na_bucket{le=\"3\"} 2\na_bucket{le=\"2\"} 2\na_bucket{le=\"+Inf\"} 2\n# TYPE b gauge\nb 1\n# EOF\n") = some .valueError := by decide
+example : errOf (parseDoc "# TYPE a gaugehistogram\na_bucket{le=\"1\",x=\"y\"} 5\na_bucket{le=\"+Inf\",x=\"y\"} 4\n# EOF\n") = some .valueError := by decide
 
 /-- the hypothesis of the two theorems above — every timestamp in the list equals itself — holds outright for absent
 and `Timestamp` timestamps, and for float timestamps whenever `==` is reflexive on them (`_parse_timestamp` never
